@@ -128,6 +128,9 @@ class SequenceAssociationTransformer(Transformer):
                 new_args += [arg,]
 
         if found_scalar:
-            return call.clone(arguments = as_tuple(new_args))
+            # arg_map lists the positional arguments first, followed by the keyword arguments
+            n_args = len(call.arguments)
+            new_kwargs = tuple((kw, arg) for (kw, _), arg in zip(as_tuple(call.kwarguments), new_args[n_args:]))
+            return call.clone(arguments=as_tuple(new_args[:n_args]), kwarguments=new_kwargs)
 
         return call
